@@ -21,7 +21,10 @@ def check_tree(ast, extra, which=None):
     abbr = G.print_abbr(ast, extra)
     expected = G.denote(ast)
     for syntax, fmt in (CONFIGS if which is None else (CONFIGS[which % 6], CONFIGS[(which + 3) % 6])):
-        out = expand(abbr, {'syntax': syntax, 'options': {'output.format': fmt}})
+        config = {'syntax': syntax, 'options': {'output.format': fmt}}
+        if not fmt:
+            config['cache'] = {}        # a (fresh) user cache must not matter: present in every format-off call
+        out = expand(abbr, config)
         try:
             got = G.shape(G.parse_markup(out, void_without_slash=(syntax == 'html')))
         except G.MarkupError as e:
@@ -30,6 +33,132 @@ def check_tree(ast, extra, which=None):
         if diff:
             return 'expand(%r, syntax=%s, output.format=%s): %s; expected tree %s, got %s (output %r)' % (
                 abbr, syntax, fmt, diff, G.show(expected), G.show(got), out)
+    return None
+
+
+# ----------------------------------------------------------------------------- call histories with snippets
+# Elements whose name is a multi-level snippet, with children attached, expanded several times with
+# shared caller state (a `cache` dict, the config dict, a Config object).  Every call of a history must
+# yield the tree its own abbreviation denotes -- nothing written in an earlier call may show up.
+USER_SNIPPETS = {'card': 'section.card>div.card-body', 'deep': 'ul.l1>li.l2>a.l3'}
+# what the two user snippets denote (written from their definitions): [name, id, class, children]
+USER_MACROS = {'card': [['section', None, 'card', [['div', None, 'card-body', []]]]],
+               'deep': [['ul', None, 'l1', [['li', None, 'l2', [['a', None, 'l3', []]]]]]]}
+BUILTIN_SNIPPETS = ['doc', '!', 'html:5']       # html>(head>...)+body, the last two with a doctype in front
+HISTORY_MODES = ['cache-shared', 'dict-shared', 'plain-shared', 'Config-shared']
+
+
+def _deepest(forest):
+    """the element a snippet's user children go to: last top-level element, then last child down to a leaf"""
+    node = forest[-1]
+    while node[3]:
+        node = node[3][-1]
+    return node
+
+
+def _copy_forest(forest):
+    return [[n[0], n[1], n[2], _copy_forest(n[3])] for n in forest]
+
+
+def denote_with_snippets(items, macros, parent=''):
+    """G.denote, plus: an element whose name is a key of `macros` stands for that forest, its children
+    nest inside the forest's deepest element (exactly once per repetition)"""
+    out = []
+    for it in items:
+        if it[0] == 'g':
+            for _ in range(1 if it[1] is None else it[1]):
+                out += denote_with_snippets(it[2], macros, parent)
+            continue
+        _, head, rep, children = it
+        name = head.get('name')
+        for _ in range(1 if rep is None else rep):
+            if name in macros:
+                inst = _copy_forest(macros[name])
+                target = _deepest(inst)
+                target[3] += denote_with_snippets(children, macros, target[0])
+                out += inst
+            else:
+                nm = name if name is not None else G.implicit_name(parent)
+                out.append([nm, head.get('id'), ' '.join(head.get('cls', ())) or None,
+                            denote_with_snippets(children, macros, nm)])
+    return out
+
+
+def history_templates(S, S2):
+    """abbreviation ASTs around the snippet element S (S2: a second snippet name or None)"""
+    E, Gr = G.E, G.G
+    c = E(cls=['c'])
+    out = [
+        [E(S)],                                                 # S
+        [E(S, [E('p')])],                                       # S>p
+        [E(S, [E('p'), E('em')])],                              # S>p+em
+        [E(S, [E('ul', [E(cls=['c'], rep=2)])])],               # S>ul>.c*2
+        [E(S, [c])],                                            # S>.c          (implicit below the snippet's deepest element)
+        [E(S, [E('p')], 2)],                                    # S*2>p
+        [E('div', [E(S, [E('p')])])],                           # div>S>p
+        [Gr([E(S, [E('i')])], 2)],                              # (S>i)*2
+        [E(S, [Gr([E('p'), E('em')], 2)])],                     # S>(p+em)*2
+        [E(S, [E('p', [E('b')]), E('i')])],                     # S>p>b^i
+        [E('p'), E(S, [E('em')])],                              # p+S>em
+        [E('table', [E('tr')])],                                # table>tr      (no snippet at all)
+    ]
+    if S2:
+        out.append([E(S, [E(S2, [E('p')])])])                   # S>S2>p
+        out.append([E(S2, [E('b')]), E(S, [E('b')])])           # S2>b^S>b
+    return out
+
+
+def history_cases(ntails):
+    """every ordered pair of templates, alone / followed by the bare snippet / (ntails == 3) by snippet>p,
+    per snippet name and sharing mode; the configuration pair rotates"""
+    idx = 0
+    for S, S2 in [('doc', None), ('!', None), ('html:5', 'doc'), ('card', 'deep'), ('deep', 'card')]:
+        ts = history_templates(S, S2)
+        for t1 in ts:
+            for t2 in ts:
+                for tail in ([], [ts[0]], [ts[1]])[:ntails]:
+                    for mode in HISTORY_MODES:
+                        idx += 1
+                        yield ([t1, t2] + tail, mode, idx % 3)
+
+
+_REFERENCE = {}     # (built-in snippet name, syntax, format) -> its forest, from the first fresh call in this process
+
+
+def check_history(asts, mode, which):
+    """asts: the abbreviations of consecutive expand() calls; mode: what the calls share"""
+    from emmet import expand
+    from emmet.config import Config
+    for syntax, fmt in (CONFIGS[which % 6], CONFIGS[(which + 3) % 6]):
+        def fresh(cache=None):
+            cfg = {'syntax': syntax, 'options': {'output.format': fmt}, 'snippets': dict(USER_SNIPPETS)}
+            if cache is not None:
+                cfg['cache'] = cache
+            return cfg
+        # what the built-in snippets stand for: read from a call of the bare name with fresh state (data of
+        # the snippet table, not behaviour); the user snippets are denoted from their definitions
+        macros = dict(USER_MACROS)
+        for name in BUILTIN_SNIPPETS:
+            if (name, syntax, fmt) not in _REFERENCE:
+                _REFERENCE[(name, syntax, fmt)] = G.shape(G.parse_markup(expand(name, fresh()), void_without_slash=(syntax == 'html')))
+            macros[name] = _REFERENCE[(name, syntax, fmt)]
+        cache = {}
+        shared = {'cache-shared': None, 'dict-shared': fresh(cache), 'plain-shared': fresh()}.get(mode)
+        if mode == 'Config-shared':
+            shared = Config(fresh(cache))
+        for step, ast in enumerate(asts):
+            abbr = G.print_abbr(ast)
+            out = expand(abbr, shared if shared is not None else fresh(cache))
+            where = 'call %d of the history %r (%s, syntax=%s, output.format=%s): expand(%r)' % (
+                step + 1, [G.print_abbr(a) for a in asts], mode, syntax, fmt, abbr)
+            try:
+                got = G.shape(G.parse_markup(out, void_without_slash=(syntax == 'html')))
+            except G.MarkupError as e:
+                return '%s is not well-nested markup (%s): %r' % (where, e, out)
+            expected = denote_with_snippets(ast, macros)
+            diff = G.first_difference(expected, got)
+            if diff:
+                return '%s: %s; expected tree %s, got %s (output %r)' % (where, diff, G.show(expected), G.show(got), out)
     return None
 
 
@@ -109,10 +238,12 @@ def run(tier, seed):
         plan = [([(1, 2, 2), (2, 2, 2), (3, 2, 2)], None, False), ([(4, 2, 2)], 1, True), ([(5, 1, 1)], 1, True)]
         clamp = [(2, 1, 1), (3, 1, 1), (4, 1, 1)]
         nrand, rmin, rmax = 1000, 6, 40
+        ntails = 2
     else:
         plan = [([(1, 2, 3), (2, 2, 3), (3, 2, 3), (4, 2, 2)], None, False), ([(5, 2, 2)], 1, False), ([(6, 2, 1)], 1, False), ([(7, 0, 2)], 1, False)]
         clamp = [(2, 2, 2), (3, 2, 2), (4, 2, 2), (5, 1, 1)]
         nrand, rmin, rmax = 10000, 6, 40
+        ntails = 3
     out = []
 
     def fmt(spaces):
@@ -127,12 +258,23 @@ def run(tier, seed):
                ' | '.join('%s: %s, %s' % (fmt(sp), vname(v), 'one rotating pair of configurations (two syntaxes; format on + off)'
                                           if pair else 'all 6 configurations html/xml/xhtml x output.format on/off') for sp, v, pair in plan),
                'a case is one abbreviation AST (skeleton x repeater placement x naming variant: all named / odd implicit / '
-               'even implicit / all implicit / void leaves); distinct by AST; the configurations are evaluated inside the case', exhaustive=True)
+               'even implicit / all implicit / void leaves); distinct by AST; the configurations are evaluated inside the case; '
+               'every output.format-off call also carries a fresh `cache: {}`', exhaustive=True)
     for sp, v, pair in plan:
         cases = G.exhaustive_cases(sp, v)
         if pair:
             cases = ((ast, extra, i % 3) for i, (ast, extra) in enumerate(cases))
         run_parallel(c, 'bounded.c01', 'check_tree', cases, chunk=400)
+    out.append(c.done())
+
+    c = Clause('snippet-call-histories', 'B',
+               'histories of 2-3 expand() calls that share caller state; the abbreviations put children below an element whose name '
+               'is a multi-level snippet (built-in doc, !, html:5; user snippets card: section.card>div.card-body, deep: ul.l1>li.l2>a.l3); '
+               'EVERY call must yield the tree its own abbreviation denotes',
+               '5 snippet names x (12 or 14 templates)^2 ordered pairs x %d endings (none, bare snippet, snippet>p)[:%d] x 4 sharing modes %r; '
+               'one rotating pair of configurations (two syntaxes; format on + off)' % (ntails, ntails, HISTORY_MODES),
+               'a case is (list of abbreviation ASTs, sharing mode, configuration pair); a fresh cache / config per configuration', exhaustive=True)
+    run_parallel(c, 'bounded.c01', 'check_history', history_cases(ntails), chunk=100)
     out.append(c.done())
 
     c = Clause('implicit-name-table', 'B',
